@@ -431,3 +431,28 @@ Example ex_seq_reverse_layout :
   | _, _ => False
   end.
 Proof. vm_compute. repeat constructor. Qed.
+
+(** * Round 3 (seeded change C19-g): findY's probe needs no bound *)
+
+(** The slot probe as it is in the source today: starts at the preferred
+    row, steps outward by one, and has NO exit other than a return guarded by
+    a test of the very row it returns. *)
+Theorem C19_findY_skeleton_ok : fy_ok gen_findy = true.
+Proof. exact gen_findy_ok. Qed.
+Print Assumptions C19_findY_skeleton_ok.
+
+(** For ANY set of taken rows (any layer width) the probe ends within
+    [|taken| + 1] offsets and returns a row that is not taken. *)
+Theorem C19_findY_probe_terminates_within_width : forall tak yavg,
+  exists y, find_y (S (length tak)) tak yavg 0 = Some y /\ zmem y tak = false.
+Proof. exact findY_probe_terminates_within_width. Qed.
+Print Assumptions C19_findY_probe_terminates_within_width.
+
+(** A probe that gives up after a fixed number of offsets and then hands out
+    a row without consulting the taken map returns a taken row. *)
+Theorem C19_bounded_probe_refuted :
+  let tak := [0; 1; -1; 2]%Z in
+  find_y_bounded 2 tak 0 0 = 2%Z /\ zmem 2 tak = true /\
+  find_y (S (length tak)) tak 0 0 = Some (-2)%Z.
+Proof. exact bounded_probe_refuted. Qed.
+Print Assumptions C19_bounded_probe_refuted.
